@@ -75,6 +75,7 @@ class Profile:
     causal_sync: bool = False                   # shrink kernels so that every synchronising call returns after the work it waits for
     p_sync_touch: float = 0.0                   # a sync record ends exactly when a kernel of its stream starts
     p_fifo_overlap: float = 0.0                 # a kernel starts 1-2 units before the previous kernel of its stream ends (tolerated -1 edges)
+    shared_names: bool = False                  # a host operator and a device kernel may carry the same name (torch.compile: op and Triton kernel)
     more_inner_annotations: bool = False        # user annotations with operator children inside operators (events without graph nodes inside the nest)
     n_pad: Tuple[int, int] = (0, 0)              # extra small host ops on their own thread (pushes row ids past 127 / 32767)
 
@@ -147,6 +148,8 @@ class Gen:
                 if r < 0.7:
                     ev["cat"] = "cpu_op"
                     ev["name"] = rng.choice(CPU_OPS)
+                    if p.shared_names and rng.random() < 0.12:
+                        ev["name"] = rng.choice(["triton_poi_fused_add_0", "ncclKernel_AllReduce_RING_LL_Sum_float(ncclWorkElem)"])
                     ev["args"] = {"External id": self.next_ext}
                     if rng.random() < 0.3:
                         ev["args"]["Input Dims"] = [[2, 3], []]
@@ -234,6 +237,8 @@ class Gen:
             else:
                 r = rng.random()
                 nm = rng.choice(COMPUTE_KERNELS if r < 0.6 else COMM_KERNELS if r < 0.85 else OTHER_KERNELS)
+            if p.shared_names and not mem and not knames and rng.random() < 0.12:
+                nm = "triton_poi_fused_add_0"
             if nm.startswith("Memcpy"):
                 cat = "gpu_memcpy"
             elif nm.startswith("Memset"):
@@ -677,9 +682,9 @@ _reg(Profile(name="kseq", tmax_choices=(24, 40, 110, 600), n_ranks=(1, 2), n_thr
              kernel_names=("gemm", "relu", "ncclKernel_AllReduce", "Memcpy DtoD (Device -> Device)", "bn")))
 _reg(Profile(name="cp", tmax_choices=(20, 40, 110, 600), n_ranks=(1, 2), n_threads=(1, 2), max_depth=4, p_zero_dur=0.0, p_launch=0.55, p_mem_launch=0.3,
              p_missing_kernel=0.1, p_orphan_kernel=0.1, n_steps=(0, 3), p_kernel_zero=0.03, p_same_ts_as_launch=0.1, p_sync=0.6, causal_sync=True,
-             p_sync_touch=0.8, more_inner_annotations=True, n_streams=(1, 3), epoch_choices=(0, 1000000)))
+             p_sync_touch=0.8, more_inner_annotations=True, shared_names=True, n_streams=(1, 3), epoch_choices=(0, 1000000)))
 _reg(Profile(name="cp_neg", tmax_choices=(20, 40, 110), n_ranks=(1, 1), n_threads=(1, 2), max_depth=4, p_zero_dur=0.0, p_launch=0.6, p_mem_launch=0.3,
              p_missing_kernel=0.1, n_steps=(0, 2), p_same_ts_as_launch=0.1, p_sync=0.3, causal_sync=True, p_fifo_overlap=0.5, kernel_causal=False,
              n_streams=(1, 2), epoch_choices=(0, 1000000)))
 _reg(Profile(name="cp_tiny", tmax_choices=(10, 14, 20), n_ranks=(1, 1), n_threads=(1, 2), max_depth=3, p_zero_dur=0.0, p_launch=0.6, p_mem_launch=0.3,
-             n_steps=(0, 2), p_kernel_zero=0.05, p_same_ts_as_launch=0.3, p_sync=0.7, causal_sync=True, p_sync_touch=0.8, more_inner_annotations=True, n_streams=(1, 2), epoch_choices=(0,)))
+             n_steps=(0, 2), p_kernel_zero=0.05, p_same_ts_as_launch=0.3, p_sync=0.7, causal_sync=True, p_sync_touch=0.8, more_inner_annotations=True, shared_names=True, n_streams=(1, 2), epoch_choices=(0,)))
